@@ -54,7 +54,7 @@ ASSUMPTIONS = ["exact regime: dyadic corners and cells, every binary64 operation
                "place changes the cell counts under the field's array and is not a state the property speaks about)",
                "cases whose largest spacing deviation is within a factor 3.3 of the spacing threshold 1e-5*|mean| are not compared "
                "(incidental threshold)"]
-UNPROVED = ["a dimension called 'units' is NOT generated by default (VERIF_C17_DIM_UNITS=1 switches it on): from_xarray reads "
+UNPROVED = ["a dimension called 'units' is generated by default (finding D119, fixed in /repo 5d7e5dea): from_xarray reads "
             "`xa[i].units`, which xarray resolves to the coordinate of that name instead of the attribute, so the import of the real "
             "export raises TypeError (finding D117, reported); the model, which addresses attributes by key, accepts it",
             "axes of more than 300 cells are judged by the oracle on the real code only (exact cell centres, round trip, rebuild): "
@@ -79,7 +79,7 @@ XR_DIMS = ["values", "attrs", "name", "cell", "pmin", "pmax", "nvdim", "T", "dat
            "region", "mean", "self", "tolerance_factor", "sel", "loc", "item", "p1", "p2", "vdim", "unit"]
 # VERIF_C17_DIM_UNITS=1: a dimension called "units" (finding D117: from_xarray reads `xa[i].units`, which xarray resolves to the
 # COORDINATE called units, not to the attribute, so the import of the real export raises TypeError).  Off by default.
-DIM_UNITS = os.environ.get("VERIF_C17_DIM_UNITS") == "1"
+DIM_UNITS = os.environ.get("VERIF_C17_DIM_UNITS", "1") != "0"
 UNITS = ["m", "nm", "um", "s", "rad", "1/m"]
 # any string is a legal unit of a Region: the empty string (a dimensionless axis), strings that are falsy / look like None /
 # numbers, blanks, non-ASCII, long ones, the attribute's own name
@@ -1053,7 +1053,7 @@ def nontrivial(case, obs):
 def known(case, text):
     # D117 (only generated with VERIF_C17_DIM_UNITS=1): a dimension called "units" - `xa[i].units` is the coordinate, not the attribute
     if "units" in (case.get("geom", {}).get("dims") or []) and "TypeError" in text:
-        return "D117"
+        return None   # was finding D119 (fixed in /repo 5d7e5dea): nothing is excused any more
     # D81: labels survive only for labelled vector fields and unlabelled scalar fields: a vector field without labels
     # (vdims=[]) comes back with the default labels, a scalar field with a label comes back without
     if case["kind"] == "rt" and text.startswith("labels changed:"):
